@@ -203,8 +203,13 @@ def rule_r2(rep, idx):
         hdr = any(callee_of(c)[1] == 'read' and cast.const_int(cast.call_args(c)[1], idx) == 4 and
                   any(y['kind'] == 'DeclRefExpr' and y.get('referencedDecl', {}).get('id') == size_var for y in walk(cast.call_args(c)[0]))
                   for c in reads)
-        ok = hdr and mods == [('<<=', 2)]
+        scaled = mods in ([('<<=', 2)], [('*=', 4)])
+        ok = hdr and scaled
         detail = 'header read as 4 bytes: %s; size modifications: %s' % (hdr, mods)
+        if hdr and not scaled and not any(m_[0] in ('<<=', '*=', '>>=', '/=') for m_ in mods):
+            # the scaling may be written in a form this rule does not recognise: not a verdict
+            rep.undecided('R2', 'load:image-at-0-length-word<<2', 'size computation idiom not recognised: %s' % mods, pos(f.node))
+            return
     rep.add('R2', 'load:image-at-0-length-word<<2', ok, pos(f.node) + ' ' + f.qname, detail)
 
 
